@@ -420,7 +420,8 @@ def env_histories(rng, quick):
             if k < 0.45:
                 h.append(f"env set {hx(rng.choice(ENV_NAMES) if rng.random() < 0.85 else rng.choice(ENV_BAD))} {hx(rng.choice(ENV_VALUES))}")
             elif k < 0.7:
-                h.append(f"env get {hx(rng.choice(ENV_NAMES) if rng.random() < 0.9 else rng.choice(ENV_BAD))} {hx(rng.choice([b'', b'dflt']))}")
+                # only valid names: what getenv answers for a name containing `=` is the C library's business
+                h.append(f"env get {hx(rng.choice(ENV_NAMES))} {hx(rng.choice([b'', b'dflt']))}")
             elif k < 0.85:
                 h.append("env all")
             else:
